@@ -8,6 +8,7 @@ from . import cmpeng
 from . import grid
 from . import conv
 from . import cxeng
+from . import xstd
 
 HIST_PROPS = set(hist.PROPS)
 
@@ -100,6 +101,9 @@ class _C13:
 
 
 SIMPLE = {
+    "C17": (xstd, "exploration", ["g++ 12.2 (-std=c++11/14/17/20/23) and clang++ 14.0.6 (-std=c++11/17/20, thorough also 14), libstdc++ 12; C++20 builds also with -DGCH_DISABLE_CONCEPTS; clang++ -std=c++2b excluded by the is_constant_evaluated canary",
+                                  "the interpreter, model and instrumented types are one C++11-clean source, so a digest difference is caused by the header (or the standard library) and not by the harness",
+                                  "noexcept values that legitimately vary with is_always_equal availability are not part of the digest"]),
     "C08": (cxeng, "exploration", ["g++ 12.2 and clang++ 14.0.6 with libstdc++ 12 at -std=c++20 (thorough: also g++ -std=c++23); clang++ -std=c++2b is excluded by the is_constant_evaluated canary (compiler defect, DESIGN.md C08)",
                                    "the compilers' constant evaluators are the detectors of UB, out-of-lifetime access and unreleased allocations",
                                    "program length is bounded by the evaluators' step limits; an evaluation-limit diagnostic is inconclusive, never a violation",
@@ -160,6 +164,7 @@ def claimed():
     out["C12"] = "lim"
     out["C13"] = "hist+conv"
     out["C16"] = "cmp"
+    out["C17"] = "xstd"
     out["C18"] = "grid+fault"
     out["C19"] = "grid"
     return out
